@@ -4296,10 +4296,18 @@ impl ZonedRound {
         let start = zdt.start_of_day().with_context(move || {
             err!("failed to find start of day for {zdt}")
         })?;
-        let end = start
-            .checked_add(Span::new().days_ranged(C(1).rinto()))
+        // The end of the day is the start of the *next civil day*, which
+        // is not necessarily one day after the start of this day when this
+        // day doesn't start at midnight. (This is what Temporal does too.)
+        let end = zdt
+            .date()
+            .tomorrow()
+            .and_then(|date| date.to_zoned(zdt.time_zone().clone()))
             .with_context(|| {
-                err!("failed to add 1 day to {start} to find length of day")
+                err!(
+                    "failed to find start of the day after {start} \
+                     to find length of day"
+                )
             })?;
         let span = start
             .timestamp()
